@@ -1,6 +1,8 @@
 package checks
 
 import (
+	"time"
+	"sync/atomic"
 	"fmt"
 	"strings"
 	"sync"
@@ -192,11 +194,11 @@ func (e *c06Env) journalSince(seq int64) []string {
 }
 
 func runC06(r *vc.Run, replay string) {
-	r.Rule = "sequences: ALL delivery sequences over {prepare, commit, rollback} of length 1..4 for one branch, again with the business callback failing or panicking at one position, and random interleavings of 2..3 branches sharing the fence table (same xid / same branch id); after every delivery the stored fence status and the effect rows must equal a five-state model (none/tried/committed/rollbacked/suspended) and the returned error must be nil exactly when the model accepts; faults: for 9 base sequences a database failure {error, connection lost before / after execution} at every command index of every step, then a clean redelivery: effects and fence status stay consistent (commit or roll back together), never more than one effect per phase, never confirm and cancel; races: two deliveries of the same branch at once (all pairs) x 12: same invariants; distinct_nontrivial = distinct (stream, sequence, variant) signatures"
+	r.Rule = "sequences: ALL delivery sequences over {prepare, commit, rollback} of length 1..4 for one branch, again with the business callback failing or panicking at one position, and random interleavings of 2..3 branches sharing the fence table (same xid / same branch id); after every delivery the stored fence status and the effect rows must equal a five-state model (none/tried/committed/rollbacked/suspended) and the returned error must be nil exactly when the model accepts; faults: for 9 base sequences a database failure {error, connection lost before / after execution} at every command index of every step, then a clean redelivery: effects and fence status stay consistent (commit or roll back together), never more than one effect per phase, never confirm and cancel; races: two deliveries of the same branch at once (all pairs) x 12: same invariants, and a delivery whose effect is missing from the outcome must have returned an error; staged: the rollback's locking read, then the whole late try, then the rollback's insert, steered from inside the database; distinct_nontrivial = distinct (stream, sequence, variant) signatures"
 	r.Assumptions = []string{"the business effect is written through the same local transaction that WithFence uses and the transaction is committed iff WithFence returned nil (the documented usage)", "a duplicate prepare is refused (error) and applies nothing"}
 	var wg sync.WaitGroup
 	only := osGetenv("VERIF_DEV_STREAM")
-	for name, f := range map[string]func(){"seq": func() { c06Sequences(r) }, "faults": func() { c06Faults(r) }, "races": func() { c06Races(r) }, "driver": func() { c06Driver(r) }} {
+	for name, f := range map[string]func(){"seq": func() { c06Sequences(r) }, "faults": func() { c06Faults(r) }, "races": func() { c06Races(r) }, "staged": func() { c06Staged(r) }, "driver": func() { c06Driver(r) }} {
 		if only != "" && only != name {
 			continue
 		}
@@ -558,14 +560,124 @@ func c06Races(r *vc.Run) {
 			if msg := c06Consistent(got); msg != "" {
 				viol("record-and-effect-disagree", msg)
 			}
-			if got != s1 && got != s2 {
-				// a delivery that lost a lock wait may have been refused: then the state equals one delivery alone
-				a1, _ := c06Step(st, p.a, false)
-				b1, _ := c06Step(st, p.b, false)
-				if got != a1 && got != b1 && got != st {
-					viol("not-serializable", fmt.Sprintf("two simultaneous deliveries (%s, %s) left %+v which no serial order produces", p.a, p.b, got))
+			c06RaceVerdict(viol, st, p.a, p.b, res, got)
+		}
+	}
+}
+
+// c06RaceVerdict: the state two simultaneous deliveries leave must be the outcome of one of the two serial orders; a
+// delivery that lost (lock wait, duplicate key) may instead have been refused - then it must have returned an error,
+// because an acknowledged delivery is never repeated by the coordinator.
+func c06RaceVerdict(viol func(clause, detail string), st c06State, a, b string, res []c06Result, got c06State) {
+	s1, _ := c06Step(st, a, false)
+	s1, _ = c06Step(s1, b, false)
+	s2, _ := c06Step(st, b, false)
+	s2, _ = c06Step(s2, a, false)
+	if got == s1 || got == s2 {
+		return
+	}
+	a1, _ := c06Step(st, a, false)
+	b1, _ := c06Step(st, b, false)
+	refused := func(i int) bool { return len(res) > i && (res[i].Err != "" || res[i].Panic != "") }
+	switch {
+	case got == a1 && refused(1), got == b1 && refused(0), got == st && refused(0) && refused(1):
+		return
+	case got == a1 || got == b1 || got == st:
+		viol("acknowledged-without-effect", fmt.Sprintf("two simultaneous deliveries (%s, %s) left %+v, the outcome of one of them alone, but the other one was acknowledged too (errors: %q, %q): the coordinator will not repeat it", a, b, got, res[0].Err, res[1].Err))
+	default:
+		viol("not-serializable", fmt.Sprintf("two simultaneous deliveries (%s, %s) left %+v which no serial order produces", a, b, got))
+	}
+}
+
+// c06Staged: the interleaving chance rarely produces - a rollback whose locking read found no record, then the whole
+// late try (record TRIED + effect, committed), then the rollback's own insert. Steered from inside the database: the
+// try's insert waits until the rollback's insert has arrived, the rollback's insert waits until the try's record is
+// durable. (The fake database takes no gap locks, like READ COMMITTED.)
+func c06Staged(r *vc.Run) {
+	e, err := newC06Env(r, "c06-stg")
+	if err != nil {
+		r.Errorf("%v", err)
+		return
+	}
+	defer e.Close()
+	reps := 6
+	if r.Tier == "thorough" {
+		reps = 40
+	}
+	branch := int64(760000)
+	fenceInsertStatus := func(j *mm.JournalEntry) string {
+		if j.Kind != "INSERT" || !strings.Contains(strings.ToLower(j.SQL), "tcc_fence_log") || len(j.Args) < 4 {
+			return ""
+		}
+		return mm.TextOf(j.Args[3])
+	}
+	for i := 0; i < reps; i++ {
+		branch++
+		xid := fmt.Sprintf("10.0.0.8:8091:%d", branch)
+		st := c06State{Status: "none"}
+		shape := "staged|rollback-read, try, rollback-insert"
+		feat := map[string]string{"stream": "staged", "pair": "prepare+rollback"}
+		suspendArrived := make(chan struct{})
+		var once sync.Once
+		steered := int32(0)
+		e.db.E.Inject = func(j *mm.JournalEntry) *mm.Action {
+			switch fenceInsertStatus(j) {
+			case "1": // the try's record: not before the rollback has read and found nothing
+				select {
+				case <-suspendArrived:
+				case <-time.After(3 * time.Second):
+				}
+			case "4": // the rollback's suspension record: not before the try is durable
+				once.Do(func() { close(suspendArrived) })
+				for t0 := time.Now(); time.Since(t0) < 3*time.Second; time.Sleep(2 * time.Millisecond) {
+					if e.observe(xid, branch).Status == "tried" {
+						atomic.StoreInt32(&steered, 1)
+						break
+					}
 				}
 			}
+			return nil
+		}
+		start := e.w.Clock.Now()
+		res, err := e.run([]c06Delivery{{Phase: "prepare", Xid: xid, Branch: branch, Action: "actF"}, {Phase: "rollback", Xid: xid, Branch: branch, Action: "actF"}}, true)
+		e.db.E.Inject = nil
+		if err != nil {
+			if !e.ch.Alive() {
+				return
+			}
+			r.Inconc(shape + ": " + err.Error())
+			continue
+		}
+		got := e.observe(xid, branch)
+		if atomic.LoadInt32(&steered) == 0 {
+			// the schedule did not come about (e.g. the rollback read after the try): an ordinary race, judged alike
+			shape = "staged|not-steered"
+		} else {
+			r.Count("staged_interleavings_steered", 1)
+		}
+		r.Case(shape+"|"+got.Status, map[string]interface{}{"results": res, "state": got})
+		viol := func(clause, detail string) {
+			r.Violate(&vc.Violation{Clause: clause, Shape: shape, Features: feat, Detail: detail, Case: map[string]interface{}{"pair": []string{"prepare", "rollback"}, "steered": atomic.LoadInt32(&steered) == 1},
+				History: map[string]interface{}{"results": res, "state": got, "journal": e.journalSince(start)}})
+		}
+		if got.Try > 1 || got.Cancel > 1 || got.Confirm > 0 {
+			viol("effect-applied-twice", fmt.Sprintf("left %+v", got))
+		}
+		if msg := c06Consistent(got); msg != "" {
+			viol("record-and-effect-disagree", msg)
+		}
+		c06RaceVerdict(viol, st, "prepare", "rollback", res, got)
+		// what the coordinator does next: it repeats the rollback until it is acknowledged; then the branch must be
+		// rolled back or suspended, never left tried
+		if len(res) == 2 && res[1].Err != "" {
+			if res2, err := e.run([]c06Delivery{{Phase: "rollback", Xid: xid, Branch: branch, Action: "actF"}}, false); err == nil && len(res2) == 1 && res2[0].Err == "" {
+				got = e.observe(xid, branch)
+			}
+		}
+		if len(res) == 2 && got.Status == "tried" && (res[1].Err == "") {
+			// already reported above as acknowledged-without-effect
+		} else if got.Status == "tried" {
+			viol("rollback-never-applied", fmt.Sprintf("after the repeated rollback was acknowledged the branch is still %+v", got))
 		}
 	}
 }
